@@ -75,36 +75,52 @@ claim("C14", "E5",
       "DESIGN.md section 5.3")
 
 claim("C20", "E5",
-      "static analysis: call-graph dominator (single pipeline) over the resolved whole-program call graph",
-      "Static decision of one clause of C20: the CLI entry point and the library entry point reach scheduler and context construction through one common "
-      "function (a call-graph dominator of Workload::new, Workload::exec and both Context::new_root), and nothing else constructs them. A second "
-      "pipeline is how the two entry points would drift apart. Container equivalence and formatting insensitivity are parser semantics and NOT decided.",
+      "static analysis: call-graph dominator (single pipeline) over the resolved whole-program call graph; constant-key data-flow rules over MIR for the source loaders (which lib keys are looked up on which dictionary)",
+      "Static decision of three structural clauses of C20: (Q1) the CLI entry point and the library entry point reach scheduler and context construction through one common "
+      "function (a call-graph dominator of Workload::new, Workload::exec and both Context::new_root), and nothing else constructs them; (L2) the .glyphspackage "
+      "loader does not consult custom parameters the single-file loader does not; (L4) `public.*` UFO lib keys are looked up on the designspace lib only for the "
+      "documented key, because that lib holds the default master's public keys only for a lone UFO - any other key would make a lone UFO and a designspace "
+      "listing only that UFO build different fonts. Container equivalence in general and formatting insensitivity are parser semantics and NOT decided.",
       "Trusted: rustc MIR and the call graph (CHA for trait objects); dominators are computed by node removal over the reachable graph.",
       "DESIGN.md section 5.3 (Q1)")
 
 
 claim("C15", "E4+E3",
-      "static analysis: crash-containment who-may-call rules, call-graph SCC (recursion) census with re-checked guards (dominance, depth constants, acyclicity check ordering), unsafe census, error-discard census",
+      "static analysis: crash-containment who-may-call rules, call-graph SCC (recursion) census with re-checked guards (dominance, depth constants, acyclicity check ordering), natural-loop census over MIR CFGs with class witnesses, unsafe census, error-discard census",
       "Static decision of the crash-containment structure behind 'bad input ends in a reported error': every job runs under catch_unwind and unwinding "
       "is not disabled; process exit/abort only in the binary and always non-zero on error; no font file written on failure; no todo!() reachable on "
       "the main thread (the seven Fontra stubs are listed known findings); every recursive call cycle reachable from the entry points has a recorded "
       "termination/stack argument, and for recursion whose depth follows the input (plist nesting, component graph, include graph) the guard that "
       "bounds it is re-checked structurally on every run (this census found the component-cycle and plist-nesting stack overflows, both repaired); "
-      "unsafe blocks are the audited six; no tracked error is dropped. It quantifies over all inputs because it is a rule over code shape. It does "
-      "NOT decide parser-loop progress, time or memory bounds.",
+      "unsafe blocks are the audited six; no tracked error is dropped; (X8) no input is read or parsed on the main thread after source construction; "
+      "(X9) threads/rayon scopes are created only inside the scheduler; (X10) every loop that is not driven by a std iterator (80 of 655 in the "
+      "compile path outside the feature-file parser, whose loops are proved by C13/G1) is listed with the reason it terminates and a re-checked "
+      "class (index arithmetic / shrinking call / cursor API / generated plist reader): a new `while`/`loop` that follows references from the "
+      "input is a violation until audited. It quantifies over all inputs because it is a rule over code shape. It does NOT decide time or memory "
+      "bounds, nor that the audited loop reasons are true (they were read, not proved).",
       "Trusted: rustc MIR, call graph with class-hierarchy expansion for workspace traits (std-trait callbacks not expanded in the census), "
       "tables/e4_recursion.json (class + reason per cycle, confirmed by reading), std::panic::catch_unwind semantics. A stack overflow is not a "
       "panic, which is why containment alone is not enough and the recursion census exists.",
       "DESIGN.md sections 5.1, 5.2")
 
-claim("C13", "E4+E5",
-      "static analysis: guard dominance / data-flow of the include-validation result, field-write ownership and must-call pairing over MIR",
-      "Static decision of two clauses of C13 ONLY: (X6) cyclic or too-deep includes are rejected before the recursive tree assembly and the rejected "
-      "edges are honoured by it; (L1) a necessary condition of losslessness - a single owner of the source cursor, the lexer pulled only by "
-      "Parser::advance, every advance paired with AstSink::token. Termination of the grammar loops, panic-freedom and diagnostic ranges over arbitrary "
-      "text quantify over runtime token streams and are NOT decided; this check must not be read as evidence for them.",
-      "Trusted: rustc MIR; the FEA front-end recursion classes in tables/e4_recursion.json. Narrow claim by design (DESIGN.md section 0).",
-      "DESIGN.md sections 5.2 (X6), 5.3 (L1)")
+claim("C13", "E7+E4+E5",
+      "static analysis: context-sensitive forward dataflow over MIR of the recursive-descent parser (abstract token-kind sets evaluated from the TokenSet constants, path-sensitive on eat/expect/matches results, closures and fn items bound per call site; greatest-fixpoint summaries) deciding per-loop token consumption and feasibility of assertion failures; plus guard dominance / data-flow of the include-validation result, field-write ownership, must-call pairing and a diagnostic-range provenance rule",
+      "Static decision of these clauses of C13: (G1) TERMINATION of the parser proper (parser.rs, grammar/*): every trip round each of its 38 loops "
+      "consumes at least one non-EOF lexeme (4 are std-iterator loops, one path is an audited exception with a re-checked witness), so no error-recovery "
+      "path can spin; this found two real hangs (`@a = [; - b];`, `anchorDef (wght=200:5 longident) 5 foo;`), both repaired. (G2) NO PANIC in the same "
+      "modules: of 118 assertion / unwrap / index / overflow sites, 67 are infeasible given the token facts on every path reaching them, 10 are "
+      "constant-index bounds checks, the other 41 are listed per (function, kind, count) with the reason they cannot fire - a new site is a violation; "
+      "auditing that list found two real panics (`table mark { } mark;`, `${a-12.5}`), both repaired. (X6) cyclic or too-deep includes are rejected "
+      "before the recursive tree assembly and the rejected edges are honoured by it. (L1) a necessary condition of losslessness: a single owner of the "
+      "source cursor, the lexer pulled only by Parser::advance, every advance paired with AstSink::token. (L3) a necessary condition of 'diagnostics "
+      "point inside the source on char boundaries': ranges handed to diagnostics are token/node ranges, not byte arithmetic (two `pos..pos+1` helpers "
+      "that can point one byte past the end are listed known findings). NOT decided: the lexer's and the contextual-rule rewriter's own loops (census "
+      "with read reasons only, under C15/X10), panic-freedom outside parser.rs/grammar (lexer, token tree, validation), the truth of the audited "
+      "reasons (they were read, not proved), exact equality of concatenated token texts with the input.",
+      "Trusted: rustc MIR and const evaluation (TokenSet values); the primitive table in tables/e7_tables.json (Parser::do_bump/advance consume one "
+      "lexeme iff not at EOF; Parser::matches/nth/nth_raw/nth_range read the lookahead buffer; Kind::to_token_kind is a total map read off its MIR); "
+      "A2: the lexer returns non-empty lexemes until EOF and EOF is absorbing; std iterators are finite; the audited panic-site and loop tables.",
+      "DESIGN.md sections 5.2 (X6), 5.3 (L1, L3), 12.6 (E7: G1, G2)")
 
 
 claim("C01", "E2+E1",
@@ -169,6 +185,7 @@ def main():
             {"name": "E6", "path": "rules/e6.py", "serves_properties": ["C19"], "kind_free_text": "narrowing census over the value path"},
             {"name": "E4", "path": "rules/e4.py", "serves_properties": ["C15", "C13"], "kind_free_text": "crash containment, recursion census with guard re-checks, include guard, unsafe census"},
             {"name": "E5", "path": "rules/e5.py", "serves_properties": ["C05", "C13", "C14", "C20"], "kind_free_text": "sibling agreement and layering rules (table assembly, file names, pipeline dominator, cursor ownership)"},
+            {"name": "E7", "path": "rules/e7.py", "serves_properties": ["C13", "C15"], "kind_free_text": "token-consumption and assertion-feasibility dataflow over the fea-rs parser (abstract token-kind sets, context-sensitive summaries)"},
         ],
         "checks": [CLAIMS[k] for k in sorted(CLAIMS)],
         "notes": "Technique family: static analysis only. Every verdict is computed from /repo's current source (type-checked MIR via the driver, Cargo manifests); no check runs fontc, its tests, a fuzzer or a solver. exit 0 = held (KNOWN-FINDING lines for listed findings), exit 1 = VIOLATION lines, exit 2 = checker could not see the code. known_findings.json lists recorded findings and fixed defects.",
